@@ -14,7 +14,8 @@ digit lists, exponents and options.
 * `layout_*`: the exact text (padding to `min`, trimming, punctuation bytes) of the three notations.
 * `notation_choice_*`, `notation_iff`: scientific ⇔ not forbidden ∧ (required ∨ outside the breaks); judged on the
   un-carried exponent by `algorithm.rs` and on the carried one by `compact.rs`.
-* `trim_exact`, `trim_only_integral_layout` (+ the deviation witness `trim_keeps_zero_fraction`).
+* `trim_exact`, `trim_only_integral` (semantic: integral after rounding ⇔ trimmed), `trim_scientific`, and the
+  regression theorems `trim_after_rounding_*` (the former finding C14-decimal-trim-after-rounding).
 * `punctuation_positional`: positional output consists of decimal digits and the configured decimal point only.
 * `value_full`: the value of the emitted text through the parser specification — kept as `def … : Prop` (not proved).
 -/
@@ -69,15 +70,15 @@ theorem digits_count (ds : List Nat) (o : WOpts) (hds : 1 ≤ ds.length) (hmx : 
 the configured exponent character, sign and the exponent **plus one after a carry**. -/
 theorem layout_scientific (fmt : Format) (feats : Features) (ds : List Nat) (e : Int) (o : WOpts) (r : Nat) :
     writeScientific fmt feats ds e o r =
-      (if ¬ fmt.noExponentWithoutFraction = true ∧ (truncateAndRound ds o).1.length = 1 ∧ o.trim = true then
-         [digitChar ((truncateAndRound ds o).1.headD 0)]
-       else if (truncateAndRound ds o).1.length < minExactDigits (truncateAndRound ds o).1.length o then
-         [digitChar ((truncateAndRound ds o).1.headD 0), o.dp] ++ chars (truncateAndRound ds o).1.tail ++
-           zeros (minExactDigits (truncateAndRound ds o).1.length o - (truncateAndRound ds o).1.length)
-       else if (truncateAndRound ds o).1.length = 1 then [digitChar ((truncateAndRound ds o).1.headD 0), o.dp, 48]
-       else [digitChar ((truncateAndRound ds o).1.headD 0), o.dp] ++ chars (truncateAndRound ds o).1.tail)
-      ++ ([o.exp] ++ expSign fmt feats (e + (if (truncateAndRound ds o).2 = true then 1 else 0)) ++
-          numeral r (e + (if (truncateAndRound ds o).2 = true then 1 else 0)).natAbs) := by
+      (if ¬ fmt.noExponentWithoutFraction = true ∧ (roundSci ds o).1.length = 1 ∧ o.trim = true then
+         [digitChar ((roundSci ds o).1.headD 0)]
+       else if (roundSci ds o).1.length < minExactDigits (roundSci ds o).1.length o then
+         [digitChar ((roundSci ds o).1.headD 0), o.dp] ++ chars (roundSci ds o).1.tail ++
+           zeros (minExactDigits (roundSci ds o).1.length o - (roundSci ds o).1.length)
+       else if (roundSci ds o).1.length = 1 then [digitChar ((roundSci ds o).1.headD 0), o.dp, 48]
+       else [digitChar ((roundSci ds o).1.headD 0), o.dp] ++ chars (roundSci ds o).1.tail)
+      ++ ([o.exp] ++ expSign fmt feats (e + (if (roundSci ds o).2 = true then 1 else 0)) ++
+          numeral r (e + (if (roundSci ds o).2 = true then 1 else 0)).natAbs) := by
   rw [LexVerif.Proof.WriteFloatDragon.writeScientific_eq, LexVerif.Proof.WriteFloatCompact.writeExponent_eq]
 
 /-- **negative exponent, positional** (`carry`: `0.0999…` → one zero fewer, `0.99…` → `1.0`) -/
@@ -98,44 +99,134 @@ theorem layout_negative (ds : List Nat) (e : Int) (o : WOpts) :
 theorem min_padding (c : Nat) (o : WOpts) (mn : Nat) (h : o.minDigits = some mn) :
     minExactDigits c o = max mn c := by unfold minExactDigits; rw [h]
 
-/-- **`trim_exact`**: when the kept digits do not reach past the decimal point (`leading ≥ count`, an integral value),
-the output without `trim_floats` is the output with `trim_floats` followed by the decimal point, one `0` and the
-padding — trimming removes exactly that. -/
-theorem trim_exact (ds : List Nat) (e : Int) (o : WOpts)
-    (hint : e.toNat + 1 + (if (truncateAndRound ds o).2 = true then 1 else 0) ≥ (truncateAndRound ds o).1.length) :
-    writePositive ds e { o with trim := false } =
-      writePositive ds e { o with trim := true } ++ [o.dp, 48] ++
-        (if minExactDigits (e.toNat + 1 + (if (truncateAndRound ds o).2 = true then 1 else 0) + 1) o >
-              e.toNat + 1 + (if (truncateAndRound ds o).2 = true then 1 else 0) + 1 then
-            zeros (minExactDigits (e.toNat + 1 + (if (truncateAndRound ds o).2 = true then 1 else 0) + 1) o -
-              (e.toNat + 1 + (if (truncateAndRound ds o).2 = true then 1 else 0) + 1)) else []) := by
-  rw [LexVerif.Proof.WriteFloatDragon.writePositive_eq, LexVerif.Proof.WriteFloatDragon.writePositive_eq]
+/-- number of digits before the decimal point of the rounded value (positional notation, value ≥ 1) -/
+def leadingOf (ds : List Nat) (e : Int) (o : WOpts) : Nat :=
+  e.toNat + 1 + (if (truncateAndRound ds o).2 = true then 1 else 0)
+
+/-- the rounded value is integral: every digit past the decimal point is `0` (in particular: there is none) -/
+def IntegralAfterRounding (ds : List Nat) (e : Int) (o : WOpts) : Prop :=
+  ∀ d ∈ (truncateAndRound ds o).1.drop (leadingOf ds e o), d = 0
+
+theorem chars_zeros (l : List Nat) (h : ∀ d ∈ l, d = 0) : chars l = zeros l.length := by
+  induction l with
+  | nil => rfl
+  | cons d t ih =>
+    have hd : d = 0 := h d (List.mem_cons_self ..)
+    have := ih (fun x hx => h x (List.mem_cons_of_mem _ hx))
+    simp only [chars, zeros, List.map_cons, List.length_cons, List.replicate_succ] at this ⊢
+    rw [this, hd]; rfl
+
+theorem zeros_append (a b : Nat) : zeros a ++ zeros b = zeros (a + b) := by
+  simp [zeros, List.replicate_append_replicate]
+
+/-- **`trim_exact`** (after fix C14-decimal-trim-after-rounding; no layout exclusion any more): whenever the rounded
+value is integral, the output with `trim_floats` is exactly its integer digits, and the output without `trim_floats` is
+that followed by the decimal point and at least one `0` (the `.0`, the zero digits left by rounding, the `min` padding)
+— `trim_floats` removes exactly that and nothing else. -/
+theorem trim_exact (ds : List Nat) (e : Int) (o : WOpts) (hint : IntegralAfterRounding ds e o) :
+    writePositive ds e { o with trim := true } =
+      chars ((truncateAndRound ds o).1.take (leadingOf ds e o)) ++
+        zeros (leadingOf ds e o - (truncateAndRound ds o).1.length) ∧
+    ∃ z, 1 ≤ z ∧
+      writePositive ds e { o with trim := false } = writePositive ds e { o with trim := true } ++ [o.dp] ++ zeros z := by
+  unfold IntegralAfterRounding leadingOf at hint
+  unfold leadingOf writePositive roundPos trimPos
   have h1 : truncateAndRound ds { o with trim := false } = truncateAndRound ds o := rfl
   have h2 : truncateAndRound ds { o with trim := true } = truncateAndRound ds o := rfl
   have h3 : ∀ c, minExactDigits c { o with trim := false } = minExactDigits c o := fun _ => rfl
-  rw [h1, h2]
-  simp only [h3]
-  rw [if_pos hint, if_pos hint]
-  simp
+  simp only [h1, h2, h3]
+  generalize truncateAndRound ds o = tr at hint ⊢
+  obtain ⟨T, c⟩ := tr
+  dsimp only at hint ⊢
+  generalize e.toNat + 1 + (if c = true then 1 else 0) = L at hint ⊢
+  have hall : (T.drop L).all (fun x => decide (x = 0)) = true := by
+    simp only [List.all_eq_true, decide_eq_true_eq]; exact hint
+  by_cases hge : L ≥ T.length
+  · have hng : ¬ T.length > L := by omega
+    have htake : T.take L = T := List.take_of_length_le hge
+    simp only [hng, hge, false_and, and_false, if_false, if_true, Bool.false_eq_true, htake]
+    refine ⟨trivial, ?_⟩
+    by_cases hp : minExactDigits (L + 1) o > L + 1
+    · refine ⟨1 + (minExactDigits (L + 1) o - (L + 1)), by omega, ?_⟩
+      simp only [hp, if_true]
+      rw [← zeros_append]
+      simp [zeros]
+    · refine ⟨1, by omega, ?_⟩
+      simp only [hp, if_false]
+      simp [zeros]
+  · have hgt : T.length > L := by omega
+    have hlen : (T.take L).length = L := by simp; omega
+    simp only [hgt, hall, and_self, if_true, hlen, Nat.le_refl, ge_iff_le, Nat.sub_self, Bool.false_eq_true, false_and,
+      if_false, hge]
+    refine ⟨by simp [zeros]; omega, ?_⟩
+    have hz : chars (T.drop L) = zeros (T.length - L) := by
+      rw [chars_zeros _ hint]; simp
+    rw [hz]
+    by_cases hp : minExactDigits T.length o > T.length
+    · refine ⟨(T.length - L) + (minExactDigits T.length o - T.length), by omega, ?_⟩
+      simp only [hp, if_true]
+      rw [← zeros_append]
+      simp [zeros]
+    · refine ⟨T.length - L, by omega, ?_⟩
+      simp only [hp, if_false]
+      simp [zeros]
 
-/-- … and when digits remain after the point, `trim_floats` changes nothing (even if those digits are zeros). -/
-theorem trim_only_integral_layout (ds : List Nat) (e : Int) (o : WOpts)
-    (hfrac : ¬ e.toNat + 1 + (if (truncateAndRound ds o).2 = true then 1 else 0) ≥ (truncateAndRound ds o).1.length) :
+/-- … and when a non-zero digit remains after the point, `trim_floats` changes nothing. -/
+theorem trim_only_integral (ds : List Nat) (e : Int) (o : WOpts) (hfrac : ¬ IntegralAfterRounding ds e o) :
     writePositive ds e { o with trim := true } = writePositive ds e { o with trim := false } := by
-  rw [LexVerif.Proof.WriteFloatDragon.writePositive_eq, LexVerif.Proof.WriteFloatDragon.writePositive_eq]
+  unfold IntegralAfterRounding leadingOf at hfrac
+  unfold writePositive roundPos trimPos
   have h1 : truncateAndRound ds { o with trim := false } = truncateAndRound ds o := rfl
   have h2 : truncateAndRound ds { o with trim := true } = truncateAndRound ds o := rfl
   have h3 : ∀ c, minExactDigits c { o with trim := false } = minExactDigits c o := fun _ => rfl
   have h4 : ∀ c, minExactDigits c { o with trim := true } = minExactDigits c o := fun _ => rfl
-  rw [h1, h2]
-  simp only [h3, h4]
-  rw [if_neg hfrac, if_neg hfrac]
+  simp only [h1, h2, h3, h4]
+  generalize truncateAndRound ds o = tr at hfrac ⊢
+  obtain ⟨T, c⟩ := tr
+  dsimp only at hfrac ⊢
+  generalize e.toNat + 1 + (if c = true then 1 else 0) = L at hfrac ⊢
+  have hall : ¬ ((T.drop L).all (fun x => decide (x = 0)) = true) := by
+    simp only [List.all_eq_true, decide_eq_true_eq]; exact hfrac
+  have hgt : ¬ L ≥ T.length := by
+    intro hge
+    apply hfrac
+    rw [List.drop_of_length_le hge]
+    intro d hd; cases hd
+  simp only [hall, and_false, if_false, Bool.false_eq_true, false_and, hgt]
 
-/-- **deviation witness (finding)**: `64.00002f32` (digits 6400002) with `max_significant_digits = 3` and
-`trim_floats`: the kept digits `640` reach past the point, so the integral output keeps its `.0`. -/
-theorem trim_keeps_zero_fraction :
-    writePositive [6, 4, 0, 0, 0, 0, 2] 1 { maxDigits := some 3, minDigits := some 2, trim := true } = [54, 52, 46, 48] := by
+/-- scientific notation: an all-zero fraction left by rounding is dropped under `trim_floats`
+(`2.00…e-292` → `2e-292` unless the format forbids an exponent without fraction) -/
+theorem trim_scientific (o : WOpts) (ds : List Nat) (htrim : o.trim = true) (hz : ∀ d ∈ ds.tail, d = 0) :
+    trimSci o ds = ds.take 1 := by
+  unfold trimSci
+  rw [if_pos ⟨htrim, by simp only [List.all_eq_true, decide_eq_true_eq]; exact hz⟩]
+
+/-- **regression (was the finding C14-decimal-trim-after-rounding)**: `64.00001f32` (digits 6400001, also
+6400002) with `max_significant_digits = 3`, `min = 2` and `trim_floats` is written `64` — Dragonbox and compact layouts. -/
+theorem trim_after_rounding_positive :
+    writeDigitsN Format.standard {} [6, 4, 0, 0, 0, 0, 1] 1 { maxDigits := some 3, minDigits := some 2, trim := true } = [54, 52] ∧
+    writeDigitsC Format.standard {} [6, 4, 0, 0, 0, 0, 1] 1 { maxDigits := some 3, minDigits := some 2, trim := true } = [54, 52] ∧
+    writeDigitsN Format.standard {} [6, 4, 0, 0, 0, 0, 1] 1 { maxDigits := some 3, minDigits := some 2 } = [54, 52, 46, 48] := by
   decide +kernel
+
+/-- **regression**: `2.0000000000000004e-292` (digits 20000000000000004) with `max_significant_digits = 2` and
+`trim_floats` is written `2e-292`; without `trim_floats` `2.0e-292`. -/
+theorem trim_after_rounding_scientific :
+    writeDigitsN Format.standard {} [2, 0, 0, 0, 0, 0, 0, 0, 0, 0, 0, 0, 0, 0, 0, 0, 4] (-292) { maxDigits := some 2, trim := true } =
+      [50, 101, 45, 50, 57, 50] ∧
+    writeDigitsC Format.standard {} [2, 0, 0, 0, 0, 0, 0, 0, 0, 0, 0, 0, 0, 0, 0, 0, 4] (-292) { maxDigits := some 2, trim := true } =
+      [50, 101, 45, 50, 57, 50] ∧
+    writeDigitsN Format.standard {} [2, 0, 0, 0, 0, 0, 0, 0, 0, 0, 0, 0, 0, 0, 0, 0, 4] (-292) { maxDigits := some 2 } =
+      [50, 46, 48, 101, 45, 50, 57, 50] := by
+  decide +kernel
+
+/-- the digits that survive rounding **and** trimming: between one and `max`, never more than were generated -/
+theorem digits_kept_count (ds : List Nat) (e : Int) (o : WOpts) (hds : 1 ≤ ds.length) (hmx : o.maxDigits ≠ some 0) :
+    (1 ≤ (roundSci ds o).1.length ∧ (∀ mx, o.maxDigits = some mx → (roundSci ds o).1.length ≤ mx)) ∧
+    (1 ≤ (roundPos ds e o).1.length ∧ (∀ mx, o.maxDigits = some mx → (roundPos ds e o).1.length ≤ mx)) := by
+  obtain ⟨a1, _, a3, _, _⟩ := roundSci_length ds o hds hmx
+  obtain ⟨b1, _, b3, _, _⟩ := roundPos_length ds e o hds hmx
+  exact ⟨⟨a1, a3⟩, ⟨b1, b3⟩⟩
 
 /-! ## notation -/
 
